@@ -230,3 +230,49 @@ Section Sem.
     - apply pact_eq. apply run_gates_eq. apply eqS_sym. apply sem_teq. exact L.
   Qed.
 End Sem.
+
+(* ---- the same statement with the interpretation packaged as a structure *)
+Record interp (n : nat) : Type := mkInterp {
+  iS : Type;
+  ieq : iS -> iS -> Prop;
+  iact : gate -> iS -> iS;
+  ipact : (nat -> nat) -> iS -> iS;
+  i_refl : forall x, ieq x x;
+  i_sym : forall x y, ieq x y -> ieq y x;
+  i_trans : forall x y z, ieq x y -> ieq y z -> ieq x z;
+  i_act_eq : forall g x y, ieq x y -> ieq (iact g x) (iact g y);
+  i_pact_eq : forall f x y, ieq x y -> ieq (ipact f x) (ipact f y);
+  i_pact_ext : forall f g x, (forall i, i < n -> f i = g i) -> ieq (ipact f x) (ipact g x);
+  i_pact_id : forall x, ieq (ipact (fun i => i) x) x;
+  i_pact_comp : forall f g x, perm_on n f -> perm_on n g ->
+      ieq (ipact f (ipact g x)) (ipact (fun i => f (g i)) x);
+  (* permutation equivariance of every gate *)
+  i_equivariant : forall f g x, perm_on n f -> (forall q, In q (gqs g) -> q < n) ->
+      ieq (iact (mkG (gkind g) (gtag g) (map f (gqs g))) (ipact f x)) (ipact f (iact g x));
+  (* the inserted SWAP (tag 0) exchanges two positions *)
+  i_swap : forall p q x, p < n -> q < n -> p <> q ->
+      ieq (iact (mkG KU 0 [p; q]) x) (ipact (transp p q) x);
+  (* gates on disjoint qubits commute *)
+  i_comm : forall g h x, Dgate g h -> ieq (iact g (iact h x)) (iact h (iact g x))
+}.
+
+Definition irun {n} (I : interp n) (gs : list gate) (x : iS n I) : iS n I :=
+  run_gates (iS n I) (iact n I) gs x.
+
+Theorem routing_sem_interp n (I : interp n) G items finals ops s :
+  wf_items n items ->
+  (forall g q, In g finals -> In q (gqs g) -> q < n) ->
+  run n (full_guard G) (init n items) ops = Some s -> rem s = [] ->
+  forall x,
+    ieq n I (irun I (eflat (out s) ++ append_final (l2p s) finals) x)
+            (ipact n I (at_ (final_layout s)) (irun I (flat_map igates items ++ finals) x)).
+Proof.
+  destruct I. unfold irun. cbn. intros. eapply routing_sem; eauto.
+Qed.
+
+(* non-vacuity: the structure is inhabited (one-point interpretation) *)
+Definition trivial_interp (n : nat) : interp n.
+Proof.
+  refine (mkInterp n unit (fun _ _ => True) (fun _ x => x) (fun _ x => x) _ _ _ _ _ _ _ _ _ _ _); auto.
+Defined.
+
